@@ -1,12 +1,13 @@
 """C14 - layout of the script does not matter; the normal form is a fixed point."""
+from contracts.c01_tokeniser import TokeniserLemma
 from contracts.c03_symbols import CombineContract
-from props.parser_bounded import LayoutMetamorphic
+from props.parser_bounded import LayoutMetamorphic, TokeniserDifferential
 from verif.spec import PropertySpec
 
 PROPERTY = PropertySpec(
     id='C14',
-    contracts=[CombineContract()],
-    bounded=[LayoutMetamorphic()],
+    contracts=[CombineContract(), TokeniserLemma()],
+    bounded=[LayoutMetamorphic(), TokeniserDifferential()],
     level='other',
     explanation='Deductive part: Symbol.combine (the merge operator behind "parsing a script equals merging the parses of its statements") is '
                 'proved for all inputs: the result depends only on the two symbols (stronger kind, min/max of offsets with 0), so merging '
